@@ -42,43 +42,48 @@ REACTIONS = {
     "jpsi_pip_omega_pim": dict(initial_state=("J/psi(1S)", [-1, 0, +1]), final_state=["pi+", "omega(782)", "pi-"],
                                allowed_intermediate_particles=["b(1)(1235)+", "f(2)(1270)"],
                                allowed_interaction_types=["strong"]),
+    # massless spin-1 particle at the other final-state positions (single topology each)
+    "jpsi_pi0_pi0_gamma": dict(initial_state=("J/psi(1S)", [-1, 0, +1]), final_state=["pi0", "pi0", "gamma"],
+                               allowed_intermediate_particles=["f(0)(980)", "f(2)(1270)"],
+                               allowed_interaction_types=["strong", "EM"]),
+    "jpsi_pi0_gamma_pi0": dict(initial_state=("J/psi(1S)", [-1, 0, +1]), final_state=["pi0", "gamma", "pi0"],
+                               allowed_intermediate_particles=["f(0)(980)", "f(2)(1270)"],
+                               allowed_interaction_types=["strong", "EM"]),
     # spin-0 initial state, spin-1/2 final states, topologies (01)2 and (02)1
     "etac_pi0_p_pbar": dict(initial_state=("eta(c)(1S)", [0]), final_state=["pi0", "p", "p~"],
                             allowed_intermediate_particles=["N(1440)"]),
 }
 
 
-def synthetic_heavy_parent():
-    """A(J=1, 20 GeV) -> a(0, 0.14) b(1, 0.05) c(0, 0.05) with R1(J=1, 1 GeV) -> a b [(01)2] and
-    S1(J=0, 1.1 GeV) -> a c [(02)1]: hand-built particles, every spin projection, helicity
-    conservation only. Light, fast resonance and daughter: Wigner rotations beyond 90 degrees occur."""
+def _particle(name, spin, mass, pid):
+    from qrules.particle import Particle
+
+    return Particle(name=name, pid=pid, spin=spin, mass=mass, width=0.1 * mass)
+
+
+def _spin_range(s):
+    return [-s + i for i in range(int(round(2 * s)) + 1)]
+
+
+def _build(initial, finals, chains):
+    """Every spin projection of every state; helicity conservation |l1 - l2| <= J at each node only."""
     import itertools
 
-    from qrules.particle import Particle
     from qrules.quantum_numbers import InteractionProperties
-    from qrules.topology import FrozenTransition, create_isobar_topologies
+    from qrules.topology import FrozenTransition
     from qrules.transition import ReactionInfo, State
 
-    def particle(name, spin, mass, pid):
-        return Particle(name=name, pid=pid, spin=spin, mass=mass, width=0.1 * mass)
-
-    def spin_range(s):
-        return [-s + i for i in range(int(round(2 * s)) + 1)]
-
-    def topology(pair, spectator):
-        base = create_isobar_topologies(3)[0]  # 0 spectator, edge 3 -> 1, 2
-        return base.relabel_edges({0: spectator, 1: pair[0], 2: pair[1]})
-
-    A = particle("A", 1, 20.0, 9001)
-    finals = [particle("a", 0, 0.14, 9002), particle("b", 1, 0.05, 9003), particle("c", 0, 0.05, 9004)]
-    chains = [(topology((0, 1), 2), particle("R1", 1, 1.0, 9005)), (topology((0, 2), 1), particle("S1", 0, 1.1, 9007))]
     transitions = []
-    for top, res in chains:
-        pools = [spin_range(A.spin), *[spin_range(p.spin) for p in finals], spin_range(res.spin)]
+    for top, resonances in chains:
+        inter = sorted(resonances)
+        pools = [_spin_range(initial.spin), *[_spin_range(p.spin) for p in finals],
+                 *[_spin_range(resonances[i].spin) for i in inter]]
         for combo in itertools.product(*pools):
-            states = {-1: State(A, float(combo[0])), 3: State(res, float(combo[4]))}
+            states = {-1: State(initial, float(combo[0]))}
             for i, p in enumerate(finals):
                 states[i] = State(p, float(combo[1 + i]))
+            for k, i in enumerate(inter):
+                states[i] = State(resonances[i], float(combo[1 + len(finals) + k]))
             ok = True
             for node in top.nodes:
                 (parent,) = top.get_edge_ids_ingoing_to_node(node)
@@ -88,6 +93,78 @@ def synthetic_heavy_parent():
             if ok:
                 transitions.append(FrozenTransition(top, states, {n: InteractionProperties() for n in top.nodes}))
     return ReactionInfo(transitions, formalism="helicity")
+
+
+def _three_body_topology(pair, spectator):
+    from qrules.topology import create_isobar_topologies
+
+    base = create_isobar_topologies(3)[0]  # 0 spectator, edge 3 -> 1, 2
+    return base.relabel_edges({0: spectator, 1: pair[0], 2: pair[1]})
+
+
+def synthetic_three_body(j_initial=1, spin_pos=1, m_initial=20.0):
+    """A(J, 20 GeV) -> three light particles, the one at final-state id `spin_pos` has spin 1 (50 MeV),
+    with R1(J=1, 1 GeV) in (01)2 and S1 in (02)1: hand-built particles, every spin projection. No decaying
+    opposite-helicity child. spin_pos = 1: below R1 in (01)2, spectator in (02)1; spin_pos = 2: spectator
+    in (01)2, below S1 in (02)1; spin_pos = 0: below a resonance in both. Light, fast resonances and
+    daughters: Wigner rotations beyond 90 degrees occur."""
+    A = _particle("A", j_initial, m_initial, 9001)
+    masses = [0.14, 0.05, 0.05]
+    finals = [_particle("abc"[i], 1 if i == spin_pos else 0, masses[i], 9002 + i) for i in range(3)]
+    # the resonance that contains the spin-1 particle gets spin 1, the other spin 0 (1 if it contains it too)
+    r1 = _particle("R1", 1 if spin_pos in (0, 1) else 0, 1.0, 9005)
+    s1 = _particle("S1", 1 if spin_pos in (0, 2) else 0, 1.1, 9007)
+    if j_initial == 0 and spin_pos == 2:
+        r1 = _particle("R1", 1, 1.0, 9005)  # spin-0 parent: resonance and spin-1 spectator must match helicities
+    if j_initial == 0 and spin_pos == 1:
+        s1 = _particle("S1", 1, 1.1, 9007)
+    chains = [(_three_body_topology((0, 1), 2), {3: r1}), (_three_body_topology((0, 2), 1), {3: s1})]
+    return _build(A, finals, chains)
+
+
+def synthetic_heavy_parent():
+    return synthetic_three_body(1, 1)
+
+
+def synthetic_four_body():
+    """A(J=1, 6 GeV) -> a(0) b(1) c(0) d(0): cascades ((01)2)3 via X(012, J=1) -> R(01, J=1) c and
+    ((01)3)2 via Y(013, J=1) -> R(01, J=1) d: spin-1 final state two levels below the root, two coherent
+    topologies, no decaying opposite-helicity child."""
+    from qrules.topology import create_isobar_topologies
+
+    A = _particle("A", 1, 6.0, 9101)
+    finals = [_particle("a", 0, 0.14, 9102), _particle("b", 1, 0.3, 9103), _particle("c", 0, 0.14, 9104),
+              _particle("d", 0, 0.2, 9105)]
+    R = _particle("R", 1, 0.9, 9106)
+    X = _particle("X", 1, 2.0, 9107)
+    Y = _particle("Y", 1, 2.2, 9108)
+    tops = list(create_isobar_topologies(4))
+
+    def shape_of(t):
+        sys.path.insert(0, str(ROOT))
+        from tools.search.C04_oracle import topology_facts
+
+        return topology_facts(t)["shape"]
+
+    import itertools
+
+    base = next(t for t in tops if not any(
+        all(t.edges[c].ending_node_id is not None for c in t.get_edge_ids_outgoing_from_node(n)) for n in t.nodes))
+    out = {}
+    ids = sorted(base.outgoing_edge_ids)
+    for pm in itertools.permutations(ids):
+        t = base.relabel_edges(dict(zip(ids, pm)))
+        out.setdefault(shape_of(t), t)
+    t1, t2 = out["(((01)2)3)"], out["(((01)3)2)"]
+
+    def resonances(t, outer):
+        res = {}
+        for e in t.intermediate_edge_ids:
+            n_att = len(t.get_originating_final_state_edge_ids(t.edges[e].ending_node_id))
+            res[e] = R if n_att == 2 else outer
+        return res
+
+    return _build(A, finals, [(t1, resonances(t1, X)), (t2, resonances(t2, Y))])
 
 
 def main():
@@ -106,10 +183,22 @@ def main():
         inter = sorted({s.particle.name for t in r.transitions for i, s in t.states.items()
                         if i in t.topology.intermediate_edge_ids})
         print(name, len(r.transitions), "transitions", len(tops), "topologies", inter, flush=True)
-    if not only or "synthetic_heavy_parent" in only:
-        r = synthetic_heavy_parent()
-        qrules.io.write(r, str(out / "synthetic_heavy_parent.json"))
-        print("synthetic_heavy_parent", len(r.transitions), "transitions", flush=True)
+    synth = {
+        "synthetic_heavy_parent": lambda: synthetic_three_body(1, 1),
+        "synthetic_J1_spin_at_0": lambda: synthetic_three_body(1, 0),
+        "synthetic_J1_spin_at_2": lambda: synthetic_three_body(1, 2),
+        "synthetic_J0_spin_at_1": lambda: synthetic_three_body(0, 1),
+        "synthetic_J0_spin_at_2": lambda: synthetic_three_body(0, 2),
+        "synthetic_J2_spin_at_1": lambda: synthetic_three_body(2, 1),
+        "synthetic_J2_spin_at_2": lambda: synthetic_three_body(2, 2),
+        "synthetic_four_body": synthetic_four_body,
+    }
+    for name, fn in synth.items():
+        if only and name not in only:
+            continue
+        r = fn()
+        qrules.io.write(r, str(out / f"{name}.json"))
+        print(name, len(r.transitions), "transitions", len({t.topology for t in r.transitions}), "topologies", flush=True)
 
 
 if __name__ == "__main__":
